@@ -273,7 +273,7 @@ func ProcessResponse(b []byte, key []byte, ntskeFetcher *ntske.Fetcher, pkt *Pac
 	}
 
 	for _, cookie := range pkt.Cookies {
-		ntskeFetcher.StoreCookie(cookie.Cookie)
+		ntskeFetcher.StoreCookie(cookie.Cookie, key)
 	}
 	return nil
 }
